@@ -19,6 +19,14 @@ def u32(bs, p):
 
 
 def le(v, n):
+    """little-endian bytes of v.  For a symbolic v (under CrossHair) the bytes are fresh variables tied to v by one linear
+    constraint (same model as the struct.pack stub) instead of n div/mod terms."""
+    if hasattr(v, "var") and n in (1, 2, 4, 8):
+        from vlib import chplugin
+        if chplugin._sym_int_pack is not None:
+            r = chplugin._sym_int_pack("<" + {1: "B", 2: "H", 4: "I", 8: "Q"}[n], v)
+            if r is not None:
+                return [r[i] for i in range(n)]
     return [(v // (1 << (8 * i))) % 256 for i in range(n)]
 
 
